@@ -51,7 +51,14 @@ M = [
  ('c11_accept_guid_typo', 'C11', 'src/WebSocket.cpp', "258EAFA5-E914-47DA-95CA-C5AB0DC85B11", "258EAFA5-E914-47DA-95CA-C5AB0DC85B12"),
  ('c11_ping_ends_message', 'C11', 'src/WebSocket.cpp', "		if (fin && !(inMessage && opcode >= 8))", "		if (fin)"),
  ('c11_len64_cast', 'C11', 'src/WebSocket.cpp', "			if (len64 < 0 || len64 > 0x7ffffff0)", "			if (len64 < 0)"),
- ('c11_mask_zero_key_shortcut', 'C11', 'src/WebSocket.cpp', "		if (masked)\n		{\n			swapBytes(mask);", "		if (masked && (mask & 0xff))\n		{\n			swapBytes(mask);"),
+ ('c11_mask_zero_key_shortcut', 'C11', 'src/WebSocket.cpp', "		if (masked)\n		{\n			swapBytes(mask);", "		if (masked && (mask & 0xff))\n		{\n			swapBytes(mask);"), ('c17_readline_chunk_join_drops_char', 'C17', 'src/TextFile.cpp', "		m = n;\n	} while (1);", "		m = n > 300 ? n - 1 : n;\n	} while (1);"),
+ ('c17_cr_strip_without_lf', 'C17', 'src/TextFile.cpp', "		n = (int)strlen(*s + m) + m;\n		if (s[n-1] == '\\n') {", "		n = (int)strlen(*s + m) + m;\n		if (n > 1 && s[n-1] == '\\r' && feof(_file)) { n--; s[n] = '\\0'; break; }\n		if (s[n-1] == '\\n') {"),
+ ('c17_copy_single_block', 'C17', 'src/Directory.cpp', "	}while (n == sizeof(buffer));", "	}while (n > (int)sizeof(buffer));"),
+ ('c17_firstbytes_no_resize', 'C17', 'src/File.cpp', "	data.resize(read(&data[0], n));\n	return data;", "	read(&data[0], n);\n	return data;"),
+ ('c17_utf16be_swapped', 'C17', 'src/TextFile.cpp', "				c = b[1] | (((wchar_t)b[0]) << 8);", "				c = b[0] | (((wchar_t)b[1]) << 8);"),
+ ('c17_move_exdev_remove_first', 'C17', 'src/Directory.cpp', "		copy(from, dst);\n		remove(from);", "		remove(from);\n		copy(from, dst);"),
+ ('c17_append_truncates_large', 'C17', 'src/TextFile.cpp', "	if (!_file && !open(APPEND))\n		return false;", "	if (!_file && !open(s.length() > 1500 ? WRITE : APPEND))\n		return false;"),
+ ('c17_text_bom_offbyone', 'C17', 'src/TextFile.cpp', "		else if (head[0] == 0xef && head[1] == 0xbb && n>=3 && read<byte>() == 0xbf) // UTF8", "		else if (head[0] == 0xef && head[1] == 0xbb && n>3 && read<byte>() == 0xbf) // UTF8"),
 ]
 
 
